@@ -298,6 +298,314 @@ def run(prog, chk):
     if memrules.declaration_parameter_agreement(prog, r5, units=("ciffile.c",)) < 20:
         raise Broken("fewer than 20 declaration/definition pairs in ciffile.c")
 
+    text_field_rules(prog, chk, "R6", "R7")
+
+    r8 = chk.rule("R8-column-copies-fresh", "a local computed from the writer's last_column is not used after a call that writes "
+                  "output (and so moves the column) unless it was recomputed or reset: line-length decisions look at the column "
+                  "the next character will actually get", floor=4)
+    if memrules.stale_state_copies(prog, r8, "ciffile.c", "last_column",
+                                   "the room left on the line is judged from a column the output has already moved on from") < 4:
+        raise Broken("fewer than 4 locals computed from last_column in ciffile.c")
+
+
+def text_field_rules(prog, chk, ida, idb):
+    ra = chk.rule(ida + "-text-line-terminators", "write_text (folding / prefixing): every iteration of the loop over the value's "
+                  "logical lines writes a line terminator - no logical line, the empty last one included, is dropped", floor=1)
+    line_loop_rule(prog, ra)
+    rc = chk.rule(ida + "b-protected-line-continued", "write_text: after a line whose fold marker protects a trailing backslash an "
+                  "empty line is written, for the last logical line as for every other", floor=1)
+    protected_line_rule(prog, rc)
+    rb = chk.rule(idb + "-folded-first-character", "a folded text field starts its content in column 1: the decision to prefix or "
+                  "refuse depends on whether the value's first character is `;`", floor=1)
+    first_char_semicolon_rule(prog, rb)
+
+
+# ------------------------------------------------------------------------------------------------- text-field body rules
+def _newline_emission(n):
+    """call node that writes a line terminator to the output: u_fputc(UCHAR_NL, ..) or u_fprintf(.., "\n...")"""
+    if n.get("k") != "call":
+        return False
+    c = n.get("callee")
+    a = n.get("args", [])
+    if c == "u_fputc" and a and const(a[0]) == 0x0A:
+        return True
+    if c == "u_fprintf" and len(a) > 1:
+        t = literal_text(a[1])
+        return bool(t) and t.startswith("\n")
+    return False
+
+
+def line_loop_rule(prog, rule):
+    """write_text, folding/prefixing branch: the loop over the logical lines of the value writes a line terminator on every
+    iteration (each logical line, the empty last line of a value ending in a newline included, is announced by its own
+    newline; an iteration that writes none drops a line of the value).  Path search over one iteration, with the zero /
+    non-zero facts established by the branches taken (so `if (*tok == 0) .. else while (*tok != 0)` is understood)."""
+    from .. import loops
+    fn = prog.fn("write_text")
+    emit_blocks = {}
+    for (b, i, r, n) in fn.calls():
+        if _newline_emission(n):
+            emit_blocks.setdefault(b.id, []).append(i)
+    lps = loops.natural_loops(fn)
+    outer = [lp for lp in lps if any(bid in lp.body for bid in emit_blocks)
+             and not any(lp is not o and lp.header in o.body and lp.body < o.body for o in lps)]
+    if len(outer) != 1:
+        raise Broken("write_text: expected exactly one outermost loop that writes line terminators, found %d" % len(outer))
+    lp = outer[0]
+    inner_emit = sum(len(v) for b, v in emit_blocks.items() if b in lp.body)
+    if inner_emit < 2:
+        raise Broken("write_text: the line loop contains %d line-terminator emissions (expected the empty-line and the segment one)" % inner_emit)
+
+    def key_of(e):
+        e = strip(e)
+        return show(e) if isinstance(e, dict) else None
+
+    def branch_fact(cnd):
+        """(key, which outcome means zero) for a test of an expression against zero"""
+        holder = {}
+
+        def pred(e):
+            k = key_of(e)
+            if k is not None and e.get("k") in ("ref", "un", "index", "member"):
+                holder["k"] = k
+                return True
+            return False
+        z = cfgq.zero_test(cnd, pred)
+        if z is None or "k" not in holder:
+            return None
+        return holder["k"], z
+
+    def kills(b):
+        """variables written in block b, and whether something is stored through a pointer"""
+        ws, through = set(), False
+        for r in b.roots:
+            rd, wr, calls, dw, dr = loops.rw(r)
+            ws |= set(wr)
+            through = through or dw
+        return ws, through
+
+    def mentions(key, var):
+        return re.search(r"\b%s\b" % re.escape(var), key) is not None
+
+    hdr = lp.header
+    start = [s for s in fn.blocks[hdr].succs if s is not None and s in lp.body]
+    seen = set()
+    stack = [(s, frozenset(), (hdr, s)) for s in start]
+    bad = None
+    steps = 0
+    while stack and bad is None:
+        bid, facts, trail = stack.pop()
+        steps += 1
+        if steps > 200000:
+            raise Broken("write_text line loop: path search exceeded its budget")
+        if (bid, facts) in seen:
+            continue
+        seen.add((bid, facts))
+        if bid == hdr:
+            bad = trail
+            break
+        if bid not in lp.body or bid in emit_blocks:
+            continue                    # left the loop (error return) or wrote a line terminator
+        b = fn.blocks[bid]
+        ws, through = kills(b)
+        facts = frozenset((k, v) for (k, v) in facts
+                          if not any(mentions(k, w.lstrip("*(").split("->")[0].split(".")[0].split("[")[0]) for w in ws)
+                          and not (through and ("*" in k or "[" in k or "->" in k)))
+        cnd = cfgq.cond_of(fn, b) if len(b.succs) == 2 else None
+        bf = branch_fact(cnd) if cnd is not None else None
+        for idx, s in enumerate(b.succs):
+            if s is None:
+                continue
+            f2 = facts
+            if bf is not None:
+                k, zero_on = bf
+                is_zero = (idx == 0) == (zero_on == "true")
+                known = dict(facts).get(k)
+                if known is not None and known != is_zero:
+                    continue            # contradicts what an earlier branch on this path established
+                f2 = facts | {(k, is_zero)}
+            stack.append((s, f2, trail + (s,)))
+    if bad is None:
+        rule.ok("write_text:line-loop", "every iteration of the loop at L%s passes one of %d line-terminator emissions"
+                % (fn.blocks[hdr].term.get("l") if fn.blocks[hdr].term else "?", inner_emit))
+    else:
+        lines = []
+        for x in bad:
+            t = fn.blocks[x].term
+            if t and t.get("l") and (not lines or lines[-1] != t["l"]):
+                lines.append(t["l"])
+        rule.violation(fn.file, fn.name, fn.blocks[hdr].term.get("l") if fn.blocks[hdr].term else fn.line, "line-without-terminator",
+                       "an iteration of the loop over the value's logical lines can complete without writing a line terminator "
+                       "(branches at lines %s): that logical line - the empty last line of a value that ends in a newline - is "
+                       "dropped from a folded or prefixed text field, so the value is read back without its final newline"
+                       % ", ".join(str(x) for x in lines), path=["L%s" % x for x in lines])
+    return 1
+
+
+def protected_line_rule(prog, rule):
+    """write_text: a logical line that ends in a backslash is written with a protecting fold marker (a `\\` after its last
+    segment); the marker continues the line onto the next physical one, so an empty line must follow - before the next logical
+    line and before the closing delimiter alike.  From the end of the segment loop, on the paths where the protect flag is
+    non-zero, a line terminator is written before the line loop is re-entered or left."""
+    from .. import loops
+    fn = prog.fn("write_text")
+    # the protect flag: a local tested in the condition that selects the "\\" suffix of the segment emission
+    flags = set()
+    for (b, i, r, c) in fn.calls_to("u_fprintf"):
+        for a in c.get("args", []):
+            for x in walk(a):
+                if x.get("k") == "cond":
+                    arms = [literal_text(y) for y in walk(x.get("then")) if y.get("k") == "str"] + \
+                           [literal_text(y) for y in walk(x.get("else")) if y.get("k") == "str"]
+                    if "\\" in arms:
+                        def tested(e):
+                            e = strip(e)
+                            if not isinstance(e, dict):
+                                return
+                            if e.get("k") == "ref" and e.get("dk") == "local":
+                                flags.add(e["name"])
+                            elif e.get("k") == "bin" and e.get("op") in ("||", "&&", "!=", "=="):
+                                tested(e.get("lhs"))
+                                tested(e.get("rhs"))
+                            elif e.get("k") == "un" and e.get("op") == "!":
+                                tested(e.get("e"))
+                        tested(x.get("c"))
+    locals_int = {l["name"] for l in fn.locals if l.get("t", "").strip() == "int"}
+    flags &= locals_int
+    if len(flags) != 1:
+        raise Broken("write_text: the protect flag of the fold-marker emission was not identified (candidates: %s)" % sorted(flags))
+    flag = next(iter(flags))
+    emit_blocks = {b.id for (b, i, r, n) in fn.calls() if _newline_emission(n)}
+    lps = loops.natural_loops(fn)
+    outer = [lp for lp in lps if any(bid in lp.body for bid in emit_blocks)
+             and not any(lp is not o and lp.header in o.body and lp.body < o.body for o in lps)]
+    if len(outer) != 1:
+        raise Broken("write_text: line loop not found")
+    lp = outer[0]
+    # the segment loop: the inner loop containing the fold-marker emission
+    seg_calls = [b.id for (b, i, r, c) in fn.calls_to("u_fprintf")
+                 if any(literal_text(y) == "\\" for a in c.get("args", []) for y in walk(a) if y.get("k") == "str") and b.id in lp.body]
+    inner = [l2 for l2 in lps if l2 is not lp and l2.body < lp.body and any(bid in l2.body for bid in seg_calls)]
+    if not inner:
+        raise Broken("write_text: segment loop not found")
+    seg = min(inner, key=lambda l2: len(l2.body))
+    exits = sorted({s for bid in seg.body for s in fn.blocks[bid].succs if s is not None and s not in seg.body and s in lp.body})
+    if not exits:
+        raise Broken("write_text: the segment loop has no exit inside the line loop")
+    # barrier: emissions outside the segment loop (the empty continuation line)
+    barriers = {bid for bid in emit_blocks if bid not in seg.body}
+    found = cfgq.fact_reach(fn, exits, barriers, init_facts=[(flag, False)])
+    escaped = [bid for bid in found if bid == lp.header or bid not in lp.body]
+    if escaped:
+        trail = found[escaped[0]]
+        lines = []
+        for x in trail:
+            t = fn.blocks[x].term
+            if t and t.get("l") and (not lines or lines[-1] != t["l"]):
+                lines.append(t["l"])
+        rule.violation(fn.file, fn.name, lines[-1] if lines else fn.line, "protected-line-not-continued",
+                       "with `%s` set (the line's last segment got a protecting fold marker) the line loop can be re-entered or "
+                       "left (branches at lines %s) without an empty line having been written: the marker then folds the line into "
+                       "whatever follows - for the last line of the value, into the closing delimiter's line, and the value is "
+                       "read back with an extra backslash" % (flag, ", ".join(str(x) for x in lines)),
+                       path=["L%s" % x for x in lines])
+    else:
+        rule.ok("write_text:%s" % flag, "an empty line follows every protected line (%d exit(s) of the segment loop examined)" % len(exits))
+    return 1
+
+
+def first_char_semicolon_rule(prog, rule):
+    """A folded (or prefixed) text field starts its content on a new physical line, so a value whose first character is `;`
+    would close the field at once unless a prefix is put in front of it (or the value is refused).  Necessary condition
+    checked: the decision whether to prefix / refuse - the prefix argument write_char hands to write_text, the branch
+    conditions deciding the refusal there, or write_text's own handling - depends on a comparison of the value's first
+    character with UCHAR_SEMI."""
+    SEMI = 0x3B
+
+    def first_char_tests(fn, textvars):
+        out = []
+        for (b, i, r, n) in fn.eval_sites("bin"):
+            if n.get("op") not in ("==", "!="):
+                continue
+            for x, o in ((n.get("lhs"), n.get("rhs")), (n.get("rhs"), n.get("lhs"))):
+                if const(o) != SEMI:
+                    continue
+                x = strip(x)
+                if not isinstance(x, dict):
+                    continue
+                if x.get("k") == "un" and x.get("op") == "*" and path(strip(x.get("e"))) in textvars:
+                    out.append(n)
+                elif x.get("k") == "index" and const(x.get("idx")) == 0 and path(strip(x.get("base"))) in textvars:
+                    out.append(n)
+        return out
+
+    wc = prog.fn("write_char")
+    calls = wc.calls_to("write_text")
+    if len(calls) != 1:
+        raise Broken("write_char: expected one call of write_text, found %d" % len(calls))
+    (cb, ci, cr, call) = calls[0]
+    wt = prog.fn("write_text")
+    if len(call.get("args", [])) != len(wt.params) or len(wt.params) < 5:
+        raise Broken("write_text signature changed")
+    text_arg = path(strip(call["args"][1]))
+    fold_ix = next((i for i, p in enumerate(wt.params) if p["name"] == "fold"), None)
+    prefix_ix = next((i for i, p in enumerate(wt.params) if p["name"] == "prefix"), None)
+    if text_arg is None or prefix_ix is None or fold_ix is None:
+        raise Broken("write_text: text / fold / prefix parameters not found")
+    # 1. in write_char: a first-character test that the prefix argument or a branch deciding the refusal depends on
+    tests = first_char_tests(wc, {text_arg})
+    test_ids = {t.get("id") for t in tests}
+    # locals whose value depends on such a test (assignment closure)
+    dep_locals = set()
+    changed = True
+    while changed:
+        changed = False
+        for (b, i, r, n) in list(wc.eval_sites("asg")) + [(b, i, r, v) for (b, i, r, d) in wc.eval_sites("decl") for v in d.get("vars", [])]:
+            if n.get("k") == "asg":
+                tgt, rhs = path(strip(n.get("lhs"))), n.get("rhs")
+            else:
+                tgt, rhs = n.get("name"), n.get("init")
+            if tgt is None or rhs is None or tgt in dep_locals:
+                continue
+            for x in walk(rhs):
+                if x.get("id") in test_ids or (x.get("k") == "ref" and x.get("name") in dep_locals):
+                    dep_locals.add(tgt)
+                    changed = True
+                    break
+
+    def depends(e):
+        return any(x.get("id") in test_ids or (x.get("k") == "ref" and x.get("name") in dep_locals) for x in walk(e))
+    how = None
+    if depends(call["args"][prefix_ix]):
+        how = "the prefix argument of the write_text call at L%s depends on a test of %s[0] against `;`" % (call.get("l"), text_arg)
+    else:
+        # a branch whose one side reaches the call and whose other side does not (the refusal), depending on the test
+        for b in wc.blocks.values():
+            if len(b.succs) != 2 or None in b.succs:
+                continue
+            full = b.term.get("full") if b.term else None
+            cnd = full if isinstance(full, dict) else cfgq.cond_of(wc, b)
+            if cnd is None or not depends(cnd):
+                continue
+            r0, r1 = cfgq.reach(wc, [b.succs[0]]), cfgq.reach(wc, [b.succs[1]])
+            if (cb.id in r0) != (cb.id in r1):
+                how = "the branch at L%s that decides between write_text and a refusal depends on a test of %s[0] against `;`" % (b.term.get("l"), text_arg)
+                break
+    if how is None:
+        # 2. write_text handles it itself
+        tv = wt.params[1]["name"]
+        if first_char_tests(wt, {tv}):
+            how = "write_text itself compares %s[0] with `;`" % tv
+    if how:
+        rule.ok("write_char->write_text:first-character", how)
+    else:
+        rule.violation(wc.file, wc.name, call.get("l"), "folded-first-line-semicolon",
+                       "write_text starts the content of a folded text field on a new physical line, but neither the prefix "
+                       "argument at L%s, nor a refusal before it, nor write_text itself depends on whether the value's first "
+                       "character is `;`: a value that starts with `;` and needs folding is written with `;` in column 1, which "
+                       "ends the text field at once" % call.get("l"))
+    return 1
+
 
 # fields of struct cif_string_analysis_s that are lengths of (parts of) the analysed string: each is <= length, with
 # equality for single-line strings (cif_analyze_string sets them all to the string length then)
